@@ -9,7 +9,8 @@ if grep -rnE '\b(Admitted|admit|Axiom|Parameter|Conjecture|Unset Guard|bypass_ch
   echo "forbidden construct in coq/" >&2; exit 2
 fi
 cd coq
-coq_makefile -f _CoqProject -o Makefile $(find . -name '*.v' | sort) > /dev/null
+rm -f .vfiles
+coq_makefile -f _CoqProject -o Makefile $(find . -name "*.v" | sed "s|^\./||" | sort) > /dev/null
 timeout 3000 make -j16 2>&1 | grep -v '^COQDEP\|^COQC\|^CAMLDEP' | grep -iE 'error|warning: .*admit' -A8 || true
 # every file must have compiled
 for f in $(find . -name '*.v'); do [ -f "${f%.v}.vo" ] || { echo "not compiled: $f" >&2; exit 3; }; done
